@@ -999,7 +999,20 @@ mod srvlevel {
         matches!(tokio::time::timeout(Duration::from_millis(400), c.read_exact(&mut b)).await, Ok(Ok(_)) if b[0] == tag)
     }
 
-    fn server(workers: usize, timeout: u64, signals: bool, served: Arc<AtomicUsize>) -> std::io::Result<(actix_server::Server, std::net::SocketAddr)> {
+    /// send this scenario's nonce and wait (bounded) for its echo
+    async fn hello(c: &mut tokio::net::TcpStream, nonce: &[u8; 8]) -> bool {
+        use tokio::io::{AsyncReadExt, AsyncWriteExt};
+        if c.write_all(nonce).await.is_err() {
+            return false;
+        }
+        let mut b = [0u8; 8];
+        matches!(tokio::time::timeout(Duration::from_secs(8), c.read_exact(&mut b)).await, Ok(Ok(_)) if &b == nonce)
+    }
+
+    /// `served` counts the connections that presented `nonce` (this scenario's own clients): ports are reused
+    /// quickly when many checks run at once, so a stranger may connect to this server, and a probe of this
+    /// scenario may reach a stranger's server — neither may be mistaken for "served by this server"
+    fn server(workers: usize, timeout: u64, signals: bool, served: Arc<AtomicUsize>, nonce: [u8; 8]) -> std::io::Result<(actix_server::Server, std::net::SocketAddr)> {
         use actix_service::fn_service;
         use tokio::io::{AsyncReadExt, AsyncWriteExt};
         let lst = std::net::TcpListener::bind("127.0.0.1:0")?;
@@ -1012,13 +1025,21 @@ mod srvlevel {
             .listen("verif", lst, move || {
                 let served = served.clone();
                 fn_service(move |mut stream: actix_rt::net::TcpStream| {
-                    served.fetch_add(1, Ordering::SeqCst);
+                    let served = served.clone();
                     async move {
                         let mut buf = [0u8; 64];
+                        let mut head: Vec<u8> = vec![];
                         loop {
                             match stream.read(&mut buf).await {
                                 Ok(0) | Err(_) => break,
                                 Ok(n) => {
+                                    if head.len() < 8 {
+                                        let before = head.len();
+                                        head.extend_from_slice(&buf[..n.min(8 - before)]);
+                                        if before < 8 && head.len() == 8 && head[..] == nonce[..] {
+                                            served.fetch_add(1, Ordering::SeqCst);
+                                        }
+                                    }
                                     if stream.write_all(&buf[..n]).await.is_err() {
                                         break;
                                     }
@@ -1087,10 +1108,15 @@ mod srvlevel {
         use tokio::io::AsyncReadExt;
         let mut out = Outcome { setup: None, stop: "never", server: "never", second: "-", early: vec![], late: false, served_after: false };
         let served = Arc::new(AtomicUsize::new(0));
+        let nonce: [u8; 8] = {
+            static SEQ: AtomicUsize = AtomicUsize::new(0);
+            let x = (std::process::id() as u64) << 32 | (SEQ.fetch_add(1, Ordering::SeqCst) as u64 & 0xffff_ffff);
+            (x ^ 0x5bd1_e995_9e37_79b9).to_be_bytes()
+        };
         // ports may be scarce when many checks run at once: retry
         let mut tries = 0;
         let (srv, addr) = loop {
-            match server(sc.workers, sc.timeout, false, served.clone()) {
+            match server(sc.workers, sc.timeout, false, served.clone(), nonce) {
                 Ok(x) => break x,
                 Err(e) if is_port_error(&e) && tries < 40 => {
                     tries += 1;
@@ -1123,11 +1149,15 @@ mod srvlevel {
                 }
             };
             let _ = socket2::SockRef::from(&c).set_linger(Some(Duration::ZERO));
-            let mut ok = false;
-            for _ in 0..20 {
-                if echo_ok(&mut c, i as u8 + 1).await {
-                    ok = true;
-                    break;
+            // present the nonce (echoed back by our service), then a tagged echo
+            let mut ok = hello(&mut c, &nonce).await;
+            if ok {
+                ok = false;
+                for _ in 0..20 {
+                    if echo_ok(&mut c, i as u8 + 1).await {
+                        ok = true;
+                        break;
+                    }
                 }
             }
             if !ok {
@@ -1215,13 +1245,12 @@ mod srvlevel {
             Some(Some(_)) => "resolved",
             Some(None) => "never",
         };
-        // nothing is served after completion
+        // nothing is served after completion: a probe presenting our nonce must not be counted by OUR service
+        // (whoever answers on that port now — nobody, or a stranger that got the port — is not our concern)
         if t_server.is_some() {
             if let Ok(Ok(mut c)) = tokio::time::timeout(Duration::from_millis(500), tokio::net::TcpStream::connect(addr)).await {
                 let _ = socket2::SockRef::from(&c).set_linger(Some(Duration::ZERO));
-                if echo_ok(&mut c, 77).await {
-                    out.served_after = true;
-                }
+                let _ = hello(&mut c, &nonce).await;
             }
             tokio::time::sleep(Duration::from_millis(50)).await;
             if served.load(Ordering::SeqCst) > served_before {
@@ -1369,7 +1398,7 @@ mod srvlevel {
         let served = Arc::new(AtomicUsize::new(0));
         let sys = actix_rt::System::new();
         sys.block_on(async move {
-            let (srv, addr) = server(1, timeout, true, served).expect("server");
+            let (srv, addr) = server(1, timeout, true, served, [0u8; 8]).expect("server");
             println!("{}", addr.port());
             std::io::stdout().flush().unwrap();
             let _ = srv.await;
